@@ -181,6 +181,8 @@ class Extractor:
         self.used_fn_specs = set()
         self.used_impl_specs = set()
         self.force_external = dict(force_external or {})   # (module, fn path) -> reason
+        try: self.baseline = set(json.load(open(os.path.join(spec_dir, 'baseline_fns.json'))).get(unit, []))
+        except Exception: self.baseline = None
         self.only_ensures = dict(only_ensures or {})       # (module, fn path) -> label: emit only this postcondition of that fn (split query)
 
     # ---- helpers
@@ -518,6 +520,200 @@ class Extractor:
                 break
         return toks
 
+    # ---- R14: beta-reduction of NEW private helper functions (functions that are not in spec/baseline_fns.json)
+    def helper_info(self, toks, it, container, mod):
+        """describe a function that may be inlined at its call sites, or None.  Conditions: private, has a body, not in the
+        baseline, no `&mut self` / by-value `self` receiver, not recursive, and every `return` in its body is `return Err(`."""
+        fpath = (container + '::' + it.name) if container else it.name
+        if ('%s::%s' % (mod, fpath)) in self.baseline or it.body_open < 0: return None
+        if ' for ' in container: return None                      # trait impl method: dispatched, not a helper
+        sig = [t for t in toks[it.head:it.body_open] if t.kind not in ('ws', 'comment')]
+        if sig and sig[0].text == 'pub': return None
+        fp = fn_parts(toks, it)
+        # generics
+        consts = []
+        k = rsx._skip_trivia(toks, fp.name_idx + 1, it.end)
+        generic_names = set()
+        if toks[k].text == '<':
+            j = k + 1; depth = 1
+            while depth > 0:
+                t = toks[j]
+                if t.text == '<': depth += 1
+                elif t.text == '>': depth -= 1
+                elif t.text == '>>': depth -= 2
+                elif depth == 1 and t.kind == 'ident' and t.text == 'const':
+                    n = rsx._skip_trivia(toks, j + 1, it.end); consts.append(toks[n].text)
+                elif depth == 1 and t.kind == 'ident' and toks[rsx._skip_trivia(toks, j - 1, j) if False else j - 1].text in ('<', ','):
+                    generic_names.add(t.text)
+                elif t.kind == 'lifetime': generic_names.add(t.text)
+                j += 1
+        # parameters
+        params = []; recv = None
+        depth = 0; cur = []
+        for t in toks[fp.params_open + 1:fp.params_close] + [rsx.Tok('punct', ',', 0)]:
+            if t.kind == 'punct' and t.text in rsx.OPEN: depth += 1
+            elif t.kind == 'punct' and t.text in rsx.CLOSE: depth -= 1
+            if (t.kind == 'punct' and t.text == ',' and depth == 0) or (t.text in ('<',) and False):
+                txt = ''.join(x.text for x in cur).strip(); cur = []
+                if not txt: continue
+                flat = re.sub(r'\s+', ' ', txt)
+                if flat in ('&self', "&'_ self") or re.fullmatch(r"&'\w+ self", flat): recv = '&self'; continue
+                if flat in ('self', 'mut self', '&mut self') or flat.startswith('self:') or re.fullmatch(r"&'\w+ mut self", flat): return None
+                # split PAT : TYPE at the first top-level ':'
+                d2 = 0; cut = None
+                for i_, ch in enumerate(txt):
+                    if ch in '([{<': d2 += 1
+                    elif ch in ')]}>': d2 -= 1
+                    elif ch == ':' and d2 == 0 and txt[i_:i_ + 2] != '::' and (i_ == 0 or txt[i_ - 1] != ':'): cut = i_; break
+                if cut is None: return None
+                pat = txt[:cut].strip(); ty = txt[cut + 1:].strip()
+                if not re.fullmatch(r'(mut\s+)?[A-Za-z_][A-Za-z0-9_]*', pat): return None
+                params.append((pat, ty))
+            else:
+                cur.append(t)
+        ret = rsx.text_of(toks, fp.ret_start, fp.ret_end).strip() if fp.ret_start >= 0 else ''
+        body = toks[it.body_open + 1:it.body_close]
+        sig_body = [t for t in body if t.kind not in ('ws', 'comment')]
+        for i_, t in enumerate(sig_body):
+            if t.kind == 'ident' and t.text == 'return':
+                if not (i_ + 1 < len(sig_body) and sig_body[i_ + 1].text == 'Err'): return None
+            if t.kind == 'ident' and t.text == it.name and i_ + 1 < len(sig_body) and sig_body[i_ + 1].text in ('(', '::'): return None   # recursion
+        has_q = any(t.kind == 'punct' and t.text == '?' for t in sig_body)
+        has_ret = any(t.kind == 'ident' and t.text == 'return' for t in sig_body)
+        is_result = bool(re.match(r'Result\s*<', ret)) and 'ParseError' in ret
+        return dict(name=it.name, container=container, recv=recv, params=params, ret=ret, consts=consts, generics=generic_names,
+                    body=''.join(t.text for t in body), has_q=has_q, has_ret=has_ret, is_result=is_result, path=fpath)
+
+    def inline_helpers(self, ftoks, helpers, count=None, self_name=None):
+        """replace every call of a helper in `helpers` (name -> info) inside ftoks by the beta-reduced body (rule R14).
+        count: optional dict name -> [sites seen, sites inlined] (used by the planning pre-pass)."""
+        guard = 0
+        skip_until = {}
+        progress = True
+        done_pos = set()
+        while progress and guard < 200:
+            progress = False; guard += 1
+            n = len(ftoks)
+            for i, t in enumerate(ftoks):
+                if t.kind != 'ident' or t.text not in helpers or t.text == self_name: continue
+                h = helpers[t.text]
+                j = rsx._skip_trivia(ftoks, i + 1, n)
+                if j >= n or ftoks[j].text not in ('(', '::'): continue
+                # previous significant token
+                p = i - 1
+                while p >= 0 and ftoks[p].kind in ('ws', 'comment'): p -= 1
+                prev = ftoks[p].text if p >= 0 else ''
+                if prev == 'fn': continue
+                key = t.pos if hasattr(t, 'pos') else i
+                start = i
+                ok = True
+                if prev == '.':
+                    q = p - 1
+                    while q >= 0 and ftoks[q].kind in ('ws', 'comment'): q -= 1
+                    q2 = q - 1
+                    while q2 >= 0 and ftoks[q2].kind in ('ws', 'comment'): q2 -= 1
+                    if not (q >= 0 and ftoks[q].text == 'self' and (q2 < 0 or ftoks[q2].text not in ('.', '::')) and h['recv'] == '&self'): ok = False
+                    start = q
+                elif prev == '::':
+                    q = p - 1
+                    while q >= 0 and ftoks[q].kind in ('ws', 'comment'): q -= 1
+                    if not (q >= 0 and ftoks[q].text == 'Self' and h['recv'] is None and h['container']): ok = False
+                    start = q
+                else:
+                    if h['recv'] is not None or h['container']: ok = False
+                # turbofish
+                tf = []
+                k = j
+                if ok and ftoks[k].text == '::':
+                    k2 = rsx._skip_trivia(ftoks, k + 1, n)
+                    if ftoks[k2].text != '<': ok = False
+                    else:
+                        depth = 0; e = k2
+                        while e < n:
+                            if ftoks[e].text == '<': depth += 1
+                            elif ftoks[e].text == '>':
+                                depth -= 1
+                                if depth == 0: break
+                            e += 1
+                        tf = [''.join(x.text for x in ftoks[k2 + 1:e]).strip()]
+                        k = rsx._skip_trivia(ftoks, e + 1, n)
+                if ok and (k >= n or ftoks[k].text != '('): ok = False
+                if count is not None and key not in done_pos:
+                    count.setdefault(h['name'], [0, 0])[0] += 1; done_pos.add(key)
+                if not ok: continue
+                pc = match_close(ftoks, k)
+                # arguments
+                args = []; depth = 0; cur = []
+                for x in ftoks[k + 1:pc]:
+                    if x.kind == 'punct' and x.text in rsx.OPEN: depth += 1
+                    elif x.kind == 'punct' and x.text in rsx.CLOSE: depth -= 1
+                    if x.kind == 'punct' and x.text == ',' and depth == 0:
+                        args.append(''.join(y.text for y in cur).strip()); cur = []
+                    else: cur.append(x)
+                last = ''.join(y.text for y in cur).strip()
+                if last: args.append(last)
+                if len(args) != len(h['params']): continue
+                if h['consts'] and (len(tf) != 1 or len(h['consts']) != 1 or ',' in tf[0]): continue
+                if not h['consts'] and tf: continue
+                a = rsx._skip_trivia(ftoks, pc + 1, n)
+                has_try = a < n and ftoks[a].text == '?'
+                body = h['body']
+                if h['consts']:
+                    body = ''.join((tf[0] if (x.kind == 'ident' and x.text == h['consts'][0]) else x.text) for x in tokenize(body))
+                self._r14 = getattr(self, '_r14', 0) + 1
+                K = self._r14
+                lets = ''.join('let __r14_%d_%d = %s; ' % (K, n_, arg) for n_, arg in enumerate(args))
+                for n_, (pat, ty) in enumerate(h['params']):
+                    plain = not any(re.search(r'(?<![A-Za-z0-9_])%s(?![A-Za-z0-9_])' % re.escape(gname), ty) for gname in (h['generics'] | set(h['consts']))) and "'" not in ty and 'impl ' not in ty and not ty.lstrip().startswith('&mut')
+                    lets += ('let %s: %s = __r14_%d_%d; ' % (pat, ty, K, n_)) if plain else ('let %s = __r14_%d_%d; ' % (pat, K, n_))
+                if has_try and h['is_result']:
+                    rep = '{ %slet __r14_%d_r = crate::vp::r14_res({%s}); __r14_%d_r? }' % (lets, K, body, K); end = a + 1
+                elif not has_try and not h['has_q'] and not h['has_ret']:
+                    rep = '{ %s{%s} }' % (lets, body); end = pc + 1
+                else:
+                    continue
+                text = rsx.text_of(ftoks, 0, start) + rep + rsx.text_of(ftoks, end, n)
+                ftoks = tokenize(text)
+                if count is not None: count[h['name']][1] += 1
+                else: self.rule('R14')
+                progress = True
+                break
+        return ftoks
+
+    def plan_inlining(self, toks, items, mod):
+        """which new private helpers of this module have ALL their call sites beta-reducible (rule R14)"""
+        cands = {}
+        fns = []
+        for it in items:
+            if not self.cfg_keep(it): continue
+            if it.kind == 'fn': fns.append((it, ''))
+            elif it.kind == 'impl':
+                for ch in it.children:
+                    if ch.kind == 'fn' and self.cfg_keep(ch): fns.append((ch, it.name))
+            elif it.kind == 'trait':
+                for ch in it.children:
+                    if ch.kind == 'fn' and self.cfg_keep(ch): fns.append((ch, 'trait ' + it.name))
+        names = {}
+        for it, cont in fns: names[it.name] = names.get(it.name, 0) + 1
+        for it, cont in fns:
+            if cont.startswith('trait '): continue
+            try: h = self.helper_info(toks, it, cont, mod)
+            except Exception: h = None
+            if h is not None and names[it.name] == 1: cands[it.name] = h
+        if not cands: return {}
+        count = {}
+        for it, cont in fns:
+            if it.body_open < 0: continue
+            src = rsx.text_of(toks, it.start, it.end)
+            try:
+                ft = tokenize(src)
+                ft = self.expand_macros(ft) if self.macros else ft
+                self.inline_helpers(ft, cands, count=count, self_name=it.name)
+            except Exception:
+                for c in cands: count.setdefault(c, [0, 0])[0] += 1       # be conservative: treat as a site that cannot be inlined
+        plan = {n: h for n, h in cands.items() if count.get(n, [0, 0])[0] > 0 and count[n][0] == count[n][1]}
+        return plan
+
     # ---- one function
     def process_fn(self, toks, item, module, container, fnspec, in_trait_impl=False, pub_container=False):
         """full splice; if a rewrite pattern / loop anchor of the spec no longer matches the source (the function
@@ -556,6 +752,8 @@ class Extractor:
         # ---------- R phase
         ftoks = self.expand_macros(ftoks) if self.macros else ftoks
         ftoks = self.apply_shims(ftoks)
+        if getattr(self, 'inline_plan', None) and name not in self.inline_plan:
+            ftoks = self.inline_helpers(ftoks, self.inline_plan, self_name=name)
         ftoks = self.normalise_ref_patterns(ftoks)
         for rw in (fnspec or {}).get('rewrite', []):
             ftoks = self.apply_rewrite(ftoks, rw, path)
@@ -927,6 +1125,7 @@ class Extractor:
         except RsxError as e:
             raise ExtractError('%s: %s' % (path, e))
         ms = self.spec.module(mod)
+        self.inline_plan = self.plan_inlining(toks, items, mod) if self.baseline else {}
         drops = {d['item']: d for d in ms.get('drop', [])}
         drops.update({d['item']: d for d in self.spec.units.get('drop', []) if d.get('module') in (None, mod)})
         fnspecs = {f['path']: f for f in ms.get('fn', [])}
@@ -951,6 +1150,10 @@ class Extractor:
                     if re.fullmatch(rule['match'], fpath):
                         fs = self.auto_fn_spec(rule, toks, it, mod, fpath)
                         break
+            if fs is None and it.name in self.inline_plan and self.inline_plan[it.name]['path'] == fpath:
+                # R14: every call site of this new private helper is beta-reduced, so the helper itself is never called in the
+                # verified text; its body is verified at (and with the context of) each call site
+                fs = {'path': fpath, 'external_body': True}
             text, rec = self.process_fn(toks, it, mod, container, fs, in_trait_impl)
             rec.src_file = 'src/%s.rs' % mod
             rec.src_line = item_src_line(it)
